@@ -202,7 +202,7 @@ func analyse(pd *propDef, lo loadOpts) (c *Ctx, code int) {
 				c.undecided(pd.id+".engine", "panic", 0, fmt.Sprintf("checker panic: %v\n%s", r, debug.Stack()))
 			}
 		}()
-		pd.run(c)
+		runWithDeps(pd, c)
 	}()
 	return c, 0
 }
